@@ -76,10 +76,11 @@ Print Assumptions no_fatal_from_input.
    concatenated stream at once (segmentation_independent). *)
 Theorem machine_segmentation_independent :
   forall (HS : Type) (handle : HS -> msg -> HS * verdict) (rl : role) (budget : nat -> nat) (short : nat -> bool)
-         (h : HS) (segs : list (list N)),
+         (h : HS) (pre : list N) (segs : list (list N)),
+  (length pre < bufsz)%nat ->
   exists s' es,
-    run HS handle rl budget short h [] segs = MRet s' [] es /\
-    decode HS handle rl h (concat segs) = PRes (m_h s') (m_mode s') (m_buf s') es.
+    run HS handle rl budget short h pre segs = MRet s' [] es /\
+    decode HS handle rl h (pre ++ concat segs) = PRes (m_h s') (m_mode s') (m_buf s') es.
 Proof. exact ProofsD.machine_segmentation_independent. Qed.
 Print Assumptions machine_segmentation_independent.
 
@@ -94,11 +95,16 @@ Theorem event_read_total :
 Proof. exact ProofsD.ev_total. Qed.
 Print Assumptions event_read_total.
 
-Theorem handover_complete_refuted :
-  exists (c : cfg) (pre : list N),
-    effs_of (run_real c (fun _ => 0%nat) (fun _ => false) (h0 c) pre []) = Some [] /\
-    mbuf_of (run_real c (fun _ => 0%nat) (fun _ => false) (h0 c) pre []) = Some pre /\
-    one_msg (c_role c) pre <> NeedMore /\
-    peffs_of (decode_real c (h0 c) pre) = Some [EMsg MInterested].
-Proof. exact ProofsC.handover_complete_refuted. Qed.
-Print Assumptions handover_complete_refuted.
+(* was handover_complete_refuted before commit 5c4764e: after push_unread(pre) + one event_read
+   on an empty socket the connection is in the state decode pre denotes -- every complete message
+   in the handed-over bytes has been dispatched, what stays buffered is an incomplete message *)
+Theorem handover_dispatches_complete :
+  forall (HS : Type) (handle : HS -> msg -> HS * verdict) (rl : role) (budget : nat -> nat) (short : nat -> bool)
+         (h : HS) (pre : list N),
+  (length pre < bufsz)%nat ->
+  exists s0 es0,
+    handover HS handle rl budget short h pre [] = MRet s0 [] es0 /\
+    decode HS handle rl h pre = PRes (m_h s0) (m_mode s0) (m_buf s0) es0 /\
+    good HS handle rl s0.
+Proof. exact ProofsD.handover_dispatches_complete. Qed.
+Print Assumptions handover_dispatches_complete.
